@@ -35,6 +35,8 @@ structure DSt where
   ctags : Array Tag := #[]
   cmeta : Option (List String) := none
   rmeta : Option String := none
+  pmeta : Option String := none
+  kinds : Option (List String) := none
 
 def parseCap (s : String) : Option Cap :=
   match (s.splitOn ",").map nat with
@@ -65,6 +67,8 @@ def capiCheck (s : DSt) : String :=
   | some [err, perr, dlen, kinds] =>
     if err != "0" then s!"DIFF:status={err}"
     else if some perr != s.rmeta then s!"DIFF:found_parse_error={perr}"
+    else if s.rmeta != s.pmeta then s!"DIFF:has_error_flag_rust={s.rmeta}_tree={s.pmeta}"
+    else if s.kinds != some (mkCfg s.names s.tagsFrom s.pats).kinds then s!"DIFF:syntax_type_names={s.kinds}"
     else if kinds != "kinds=ok" then s!"DIFF:{kinds}"
     else
       let real := s.tags.toList
@@ -137,6 +141,11 @@ def step (s : DSt) (line : String) : IO DSt := do
     | some t => return { s with ctags := s.ctags.push t }
     | none => return { s with cmeta := some ["bad"] }
   | "cmeta" :: ws => return { s with cmeta := some ws }
+  | ["pmeta", e] => return { s with pmeta := some e }
+  | "kinds" :: ws => return { s with kinds := some ws }
+  | ["cerr", id, got, expected] =>
+    IO.println s!"{id} kind=cerr corr={if got == expected then "ok" else s!"DIFF:got={got},expected={expected}"} vars={if got == expected then "11111111" else "00000000"}"
+    return s
   | ["rmeta", e] => return { s with rmeta := some e }
   | "tagerr" :: ws => return { s with err := some (" ".intercalate ws) }
   | ["run"] => IO.println (runCase s); return s
